@@ -12,12 +12,16 @@ ID = "C04"
 LEVEL = "exploration"
 RULE = ("k = 2..4 pids drawn from prefix-related names (mat, matt, matthew, atthew, MATT) are bound to one "
         "content (by store_object or store-then-tag); they are deleted in EVERY order, and between consecutive "
-        "deletes one 'noise' call from a menu of 8 is made (delete_if_invalid_object with wrong checksum / wrong "
+        "deletes one 'noise' call from a menu of 11 is made (delete_if_invalid_object with wrong checksum / wrong "
         "size on the shared object, a store on a bound pid with other content, a store of the shared content with "
-        "a wrong checksum, store/delete metadata, delete of an unknown pid, tag of a bound pid); quick: all orders "
+        "a wrong checksum, store/delete metadata, delete of an unknown pid, tag of a bound pid, delete_if_invalid_object / "
+        "tag_object / delete_object through the UPPER-case spelling of the shared cid); quick: all orders "
         "x all noise choices for k<=3 and a sample for k=4, thorough: everything, plus random sequences over a "
         "sharing-heavy alphabet. After EVERY call each pid the model says is bound is retrieved and compared "
-        "byte for byte; after the last delete the object must be gone. distinct_nontrivial = distinct (set of "
+        "byte for byte; after the last delete the object must be gone. (b) invariant at a hook, under the cooperative "
+        "scheduler (all schedules with <= 1/2 preemptions of the C07 pair scenarios in which a remover - delete_object, "
+        "delete_if_invalid_object - races a store/tag): at the moment an object file is unlinked or renamed away from "
+        "its permanent address no non-empty cid reference list may exist for it. distinct_nontrivial = distinct (set of "
         "pids still bound, call shape, outcome) observations with at least one pid still bound.")
 ASSUMPTIONS = []
 
@@ -50,6 +54,10 @@ def noise_menu(pids):
         {"op": "smeta", "pid": "@bound", "fmt": None, "doc": "d", "kind": "path"},
         {"op": "delete", "pid": "nobody"},
         {"op": "tag", "pid": "@bound", "cid": ["of", "S"]},
+        {"op": "dii", "content": "S", "checksum": "wrong", "calgo": "sha256", "size": "ok", "cid_case": "upper",
+         "meta_algos": "with_calgo"},
+        {"op": "tag", "pid": "alias", "cid": ["upper", "S"]},
+        {"op": "delete", "pid": "alias"},
     ]
 
 
@@ -75,11 +83,21 @@ def shards(tier, seed):
     nrand = 160 if tier == "quick" else 4000
     for s in split_seeds(seed * 1000 + 4, n):
         out.append(("rand", nrand // n, tier, s))
+    # (b) removal-time invariant under controlled interleavings: every pair scenario with a call that can remove
+    # an object (delete_object / delete_if_invalid_object) racing a call that references one
+    from .. import concprops as P
+    scns = [sc.to_json() for sc in P.object_pair_scenarios()
+            if any(o["op"] in ("delete", "dii") for o in sc.calls) and any(o["op"] in ("store", "tag") for o in sc.calls)]
+    rng.shuffle(scns)
+    if tier == "quick":
+        scns = scns[:96]
+    for c, s in zip(chunk(scns, n), split_seeds(seed + 404, n)):
+        out.append(("conc", c, tier, s))
     return out
 
 
 def min_required(tier):
-    return {"retrieves_of_sharers": 20000, "last_delete_removes_object": 200}
+    return {"retrieves_of_sharers": 20000, "last_delete_removes_object": 200, "removal_monitor_schedules": 2000}
 
 
 def run_seq(pool, ops, res, pids_all):
@@ -118,6 +136,12 @@ def _F(tag, detail, i, op):
 
 
 def run_shard(mode, payload, tier, sub_seed):
+    if mode == "conc":
+        from .. import concprops as P
+        res = P.run_scenarios(payload, 1 if tier == "quick" else 2, 4 if tier == "quick" else 20, 0, sub_seed,
+                              {"object-removed-while-referenced"})
+        res.count("removal_monitor_schedules", res.counters.get("schedules", 0))
+        return res
     res = ShardResult()
     scratch = new_scratch("c04")
     rng = random.Random(sub_seed)
@@ -147,7 +171,7 @@ def run_shard(mode, payload, tier, sub_seed):
                         ops.append({"op": "delete", "pid": p})
                         if j < k - 1 and menu[combo[j]] is not None:
                             ops.append(menu[combo[j]])
-                    run_seq(pool, ops, res, list(NAMES) + ["newpid", "nobody", "nobody2"])
+                    run_seq(pool, ops, res, list(NAMES) + ["newpid", "nobody", "nobody2", "alias"])
                     res.evaluations += 1
                     count += 1
                     if count % 300 == 0:
@@ -172,4 +196,7 @@ def run_shard(mode, payload, tier, sub_seed):
 
 
 def replay(witness):
+    if witness.get("engine") == "conc":
+        from .. import concprops as P
+        return P.replay_witness(witness, {"object-removed-while-referenced"})
     return seq_replay(witness, relevant)
